@@ -41,3 +41,15 @@ Print Assumptions C10_prefix_reparse.
 Theorem C10_strtod_ref_contract : strtod_ok LibcNum.strtod_ref /\ strtod_stable LibcNum.strtod_ref.
 Proof. exact strtod_ref_contract. Qed.
 Print Assumptions C10_strtod_ref_contract.
+
+(** non-vacuity: the text [1, "a"] followed by " x" in a 10-byte buffer is accepted with parse end 8
+    when termination is not required and rejected when it is *)
+Theorem C10_nonvacuous :
+  let content := [91; 49; 44; 32; 34; 97; 34; 93; 32; 120]%Z in
+  (exists t, text_l strtod_ref (firstn 10 content) false = Some (t, [32; 120]%Z) /\
+     exists r, cJSON_ParseWithLengthOpts strtod_ref never_fails content 10 false = Ok r /\
+               pr_tree r = Some t /\ pr_end r = Some 8%nat) /\
+  text_l strtod_ref (firstn 10 content) true = None /\
+  (exists r, cJSON_ParseWithLengthOpts strtod_ref never_fails content 10 true = Ok r /\ pr_tree r = None).
+Proof. exact parse_refines_spec_example. Qed.
+Print Assumptions C10_nonvacuous.
